@@ -341,6 +341,14 @@ func writeAtomically(b []byte, filename string) error {
 	if _, err := tempFile.Write(b); err != nil {
 		return fmt.Errorf("%s: %w", filename, err)
 	}
+	// the temporary file is created with mode 0600: keep the permission bits of the file it replaces
+	fi, err := os.Stat(filename)
+	if err != nil {
+		return fmt.Errorf("%s: %w", filename, err)
+	}
+	if err := tempFile.Chmod(fi.Mode().Perm()); err != nil {
+		return fmt.Errorf("%s: %w", filename, err)
+	}
 	if err := tempFile.Close(); err != nil {
 		return fmt.Errorf("%s: %w", filename, err)
 	}
